@@ -26,12 +26,15 @@ Fixpoint xor_args (v f : list bool) : argv :=
   | [], _ => []
   end.
 
-(* a method body: (vtr id args...) [ (vnp (next-method-p)) ] then one (call-next-method ...) per
-   element of b_calls - the element says which arguments are exchanged for the alternate object;
-   (call-next-method) without arguments and (call-next-method a b) are both the all-false element -
-   then, when it is an :around method or has calls, (vtr -id). The value is that of the last
-   call-next-method, or id when there is none. :before / :after bodies only trace. *)
-Record body := { b_id : mid; b_nmp : bool; b_calls : list (list bool) }.
+(* a method body: (vtr id args...) [ (vnp (next-method-p)) ] [ (error "vfail id") ] then one
+   (call-next-method ...) per element of b_calls - the element says which arguments are exchanged
+   for the alternate object; (call-next-method) without arguments and (call-next-method a b) are
+   both the all-false element; the flag of the element says that the form is wrapped in
+   ignore-errors (a condition signalled further in ends that call-next-method with nil and the
+   body goes on, e.g. with another call-next-method) - then, when it is an :around method or has
+   calls, (vtr -id). The value is that of the last call-next-method, or id when there is none.
+   :before / :after bodies only trace. *)
+Record body := { b_id : mid; b_nmp : bool; b_fail : bool; b_calls : list (list bool * bool) }.
 
 Record combo := { c_primary : option body; c_before : option body;
                   c_after : option body; c_wrap : option body }.
@@ -137,11 +140,15 @@ Inductive result := RVal (m : mid)       (* value of a body without call-next-me
                   | RNil                  (* InnerCall found no primary (never reached, see Proofs) *)
                   | RNoApplicable         (* no-applicable-method *)
                   | RNoNext               (* no-next-method *)
+                  | RErr (m : mid)        (* the error signalled by body m *)
                   | ROutOfFuel
                   | ROther.               (* observed only: any other condition, fault or timeout *)
 (* a condition unwinds through the bodies that are running *)
 Definition is_err (r : result) : bool :=
   match r with RVal _ | RNil => false | _ => true end.
+(* ... and ignore-errors stops a Lisp error there *)
+Definition catchable (r : result) : bool :=
+  match r with RErr _ | RNoNext => true | _ => false end.
 
 Definition deref (ms : list (key * combo)) (ks : list key) : list combo :=
   flat_map (fun k => match alookup k ms with Some c => [c] | None => [] end) ks.
@@ -152,20 +159,22 @@ Definition opt_ev (o : option body) (v : argv) : list event :=
 (* ---- running one body. [hasnext] is what WhopLoc.HasNext answers for the body's location and
    [next v'] what WhopLoc.Continue does with the arguments v'. ---- *)
 Definition run_calls (v : argv) (hasnext : bool) (next : argv -> list event * result) :=
-  fix go (calls : list (list bool)) (last : result) : list event * result :=
+  fix go (calls : list (list bool * bool)) (last : result) : list event * result :=
     match calls with
     | [] => ([], last)
-    | f :: rest =>
-        if hasnext then
-          let '(tr, r) := next (xor_args v f) in
-          if is_err r then (tr, r)
-          else let '(tr2, r2) := go rest r in (tr ++ tr2, r2)
-        else ([], RNoNext)               (* call-next-method applies no-next-method: an error *)
+    | (f, caught) :: rest =>
+        (* call-next-method applies no-next-method when there is no next method: an error *)
+        let '(tr, r) := if hasnext then next (xor_args v f) else ([], RNoNext) in
+        if is_err r then
+          if caught && catchable r then let '(tr2, r2) := go rest RNil in (tr ++ tr2, r2)
+          else (tr, r)
+        else let '(tr2, r2) := go rest r in (tr ++ tr2, r2)
     end.
 Definition run_body (ends : bool) (b : body) (v : argv) (hasnext : bool)
                     (next : argv -> list event * result) : list event * result :=
-  let '(tr, r) := run_calls v hasnext next (b_calls b) (RVal (b_id b)) in
   let head := Ev (b_id b) v :: (if b_nmp b then [EvNmp hasnext] else []) in
+  if b_fail b then (head, RErr (b_id b)) else
+  let '(tr, r) := run_calls v hasnext next (b_calls b) (RVal (b_id b)) in
   if is_err r then (head ++ tr, r)
   else (head ++ tr ++ (if ends then [EvEnd (b_id b)] else []), r).
 (* a primary ends with (vtr -id) only when it has a call-next-method form *)
